@@ -55,7 +55,7 @@ type Msg struct {
 	M  M     `json:"m"`
 	U  U     `json:"u"`
 	// X lists populated fields outside the miniature schema (never produced by the spec).
-	X []string `json:"x"`
+	X []string `json:"x,omitempty"`
 }
 
 func Empty() Msg { return Msg{O: -1, R: []int{}, Rm: []CD{}, X: []string{}} }
@@ -71,8 +71,8 @@ func (m Msg) MarshalJSON() ([]byte, error) {
 	if p.Rm == nil {
 		p.Rm = []CD{}
 	}
-	if p.X == nil {
-		p.X = []string{}
+	if len(p.X) == 0 {
+		p.X = nil // omitted: a message with foreign fields is then simply unequal to any spec message
 	}
 	return json.Marshal(p)
 }
